@@ -83,7 +83,11 @@ extern "C" void h_render() {
     const char t[] = TPL; const unsigned full = sizeof(t) - 1; const unsigned n = (CUT < full) ? CUT : full;
     char *b = (char *)vf_alloc(n);                         // exact-size heap copy, not NUL-terminated
     for (unsigned i = 0; i < n; i++) b[i] = t[i];
+#ifdef CONCRETE_LEAVES   /* sort templates: symbolic comparisons inside Memory::Sort on real Values run out of memory; the leaves are then concrete ("b?" > "a?") */
+    leaf[0][0] = 'b'; leaf[0][1] = (char)vf_u8(); leaf[1][0] = 'a'; leaf[1][1] = (char)vf_u8();
+#else
     leaf[0][0] = (char)vf_u8(); leaf[0][1] = (char)vf_u8(); leaf[1][0] = (char)vf_u8(); leaf[1][1] = (char)vf_u8();
+#endif
     alignas(V) static char raw[sizeof(V)];
     V &v = *new (&raw[0]) V;                               // never destroyed (release-exactly-once is C16's subject)
     build(v);
